@@ -277,6 +277,20 @@ package derive
 //@ ensures r != nil
 
 // printer.WriteTo (printer.go) writes header, imports and body to the writer at its offset.
+// printer.go: the alias closure NewImport returns (C01: the file imports exactly what it uses,
+// also for same-named packages): the alias it answers is bound to this very path, earlier bindings stay.
+// Assumed: no earlier import has the same flattened path (makeFullpath is not injective; the code panics then).
+//@ func unvendor(path string) (r string)
+//@ pure
+//@ func makeFullpath(path string) (r string)
+//@ pure
+//@ func (p *printer) NewImport_lit1() (r string)
+//@ assigns p.imports
+//@ requires p.imports != nil
+//@ requires [flattened-path-unique] forall a string :: a in p.imports && a == makeFullpath(unvendor(path)) ==> p.imports[a] == unvendor(path)
+//@ ensures [alias-bound-to-path] r in p.imports && p.imports[r] == unvendor(old(path))
+//@ ensures [bindings-kept] forall a string :: a in old(p.imports) ==> a in p.imports && p.imports[a] == old(p.imports)[a]
+
 //@ func (p *Printer) WriteTo(w io.Writer) (n int64, err error)
 //@ assigns fs, foff
 //@ ensures err == nil ==> fs[pathOf(w)] == overwrite(old(fs)[pathOf(w)], old(foff)[w], WriteToBytes(p))
